@@ -9,17 +9,17 @@ from vlib import *
 
 # bounded instances --------------------------------------------------------------------------
 MC = {
-    "quick": dict(MaxH=5, G=100, N=4, MaxInvalid=1, MaxLen=5, Tickets="FALSE", Weights="{1, 2}"),
-    "thorough": dict(MaxH=6, G=100, N=5, MaxInvalid=1, MaxLen=5, Tickets="FALSE", Weights="{1, 2}"),
+    "quick": dict(MaxH=5, G=100, N=4, MaxInvalid=1, MaxLen=5, Tickets="FALSE", Weights="{1, 2}", Loaded="{FALSE, TRUE}"),
+    "thorough": dict(MaxH=6, G=100, N=5, MaxInvalid=1, MaxLen=5, Tickets="FALSE", Weights="{1, 2}", Loaded="{FALSE, TRUE}"),
 }
 MC_SHORT = {
-    "quick": dict(MaxH=5, G=1, N=4, MaxInvalid=1, MaxLen=5, Tickets="FALSE", Weights="{1, 2}"),
-    "thorough": dict(MaxH=5, G=1, N=5, MaxInvalid=1, MaxLen=5, Tickets="FALSE", Weights="{1, 2}"),
+    "quick": dict(MaxH=5, G=1, N=4, MaxInvalid=1, MaxLen=5, Tickets="FALSE", Weights="{1, 2}", Loaded="{FALSE, TRUE}"),
+    "thorough": dict(MaxH=5, G=1, N=5, MaxInvalid=1, MaxLen=5, Tickets="FALSE", Weights="{1, 2}", Loaded="{FALSE, TRUE}"),
 }
 GEN = {
-    "quick": [dict(MaxH=5, G=100, N=4, MaxInvalid=1, MaxLen=5, Tickets="FALSE", Weights="{1, 2}")],
-    "thorough": [dict(MaxH=5, G=100, N=4, MaxInvalid=1, MaxLen=5, Tickets="FALSE", Weights="{1, 2}"),
-                 dict(MaxH=6, G=100, N=5, MaxInvalid=1, MaxLen=5, Tickets="FALSE", Weights="{1, 2}")],
+    "quick": [dict(MaxH=5, G=100, N=4, MaxInvalid=1, MaxLen=5, Tickets="FALSE", Weights="{1, 2}", Loaded="{FALSE, TRUE}")],
+    "thorough": [dict(MaxH=5, G=100, N=4, MaxInvalid=1, MaxLen=5, Tickets="FALSE", Weights="{1, 2}", Loaded="{FALSE, TRUE}"),
+                 dict(MaxH=6, G=100, N=5, MaxInvalid=1, MaxLen=5, Tickets="FALSE", Weights="{1, 2}", Loaded="{FALSE, TRUE}")],
 }
 SAMPLE = {"quick": 4000, "thorough": 60000}
 # main chain 1..M with tickets from MainFrom on; side chain of K blocks after block F, every ticket placement
@@ -206,7 +206,13 @@ def deep_scenarios(rnd, n, max_blocks=12, invalid_p=0.35, tickets=False):
         order += ids
         for _k in range(rnd.randint(0, 2)):
             order.insert(rnd.randrange(1, len(order) + 1), rnd.choice(order))
-        out.append(dict(blocks=blocks, order=order))
+        scn = dict(blocks=blocks, order=order)
+        if rnd.random() < 0.3:
+            # a node that has finished loading: blocks with an unknown parent are refused with "fetch the parent";
+            # everything is offered once more at the end, parents first
+            scn["loaded"] = True
+            scn["order"] = order + sorted(set(order))
+        out.append(scn)
     return out
 
 
@@ -284,7 +290,11 @@ def short_window_scenarios(rnd, n):
             order = [1] + main[:fork - 1] + rest
         if rnd.random() < 0.3:
             order.insert(rnd.randrange(1, len(order) + 1), rnd.choice(order))
-        out.append(dict(blocks=blocks, order=order, g=g))
+        scn = dict(blocks=blocks, order=order, g=g)
+        if rnd.random() < 0.25:
+            scn["loaded"] = True
+            scn["order"] = order + sorted(set(order))
+        out.append(scn)
     return out
 
 
